@@ -91,7 +91,7 @@ P13 = {
          "Additionally decided by evaluation over the listed finite domains: the ranges sort-and-chain produces, which references receive an event of each level, entry-point gating."),
  "C02": ("partial evaluation of the tag matcher (237 tag shapes x key subsets) and of Refresh/Destroy/registration/probe sequences (1282 sequences, both map orders) against a routing model",
          "Additionally decided over those domains: literal > longest underscore-delimited wildcard prefix > root, independent of map order; validation errors; rebinding."),
- "C03": ("partial evaluation of each file appender over a scripted clock and file system", "Additionally decided over the scripted steps: one write of the whole line per call, append-mode opens."),
+ "C03": ("partial evaluation of each file appender over a scripted clock and file system, and of both layouts over the C07/C08 event domain with caller-owned elements in the spare capacity of every field slice", "Additionally decided over the scripted steps and events: one write of the whole line per call, append-mode opens, formatting an event writes nothing into storage shared with other events."),
  "C04": ("partial evaluation of the queueing logger under 150 scripted schedules (channels as queues, goroutines as tasks stepped by the rule, both choices at multi-ready selects, racing producers)", "Additionally decided over those schedules: every submitted item delivered exactly once or counted as discarded exactly once, under each policy."),
  "C06": ("partial evaluation of the queueing logger under 150 scripted schedules (see C04)", "Additionally decided over those schedules: delivery order is submission order; Discard drops the arriving item, DiscardOldest the oldest queued ones, Block none; only Block makes a producer wait."),
  "C05": ("partial evaluation of the queueing logger under scripted schedules (Stop on a drained and on a full buffer, two lives), of the rolling-file logger end to end, of file appenders (descriptors open between calls and after Stop, incl. Stop after a failed rotation) and of Refresh/Destroy sequences (start/stop order)", "Additionally decided over those domains: every descriptor closed by Stop, at most two held, loggers stopped before appenders, everything started is stopped once."),
@@ -101,7 +101,7 @@ P13 = {
  "C10": ("partial evaluation of the 15 entry points over environment classes (hook masks, caller modes, ranges, recycled events) and of level-range probes across Refresh/Destroy rebinding", "Additionally decided over those domains: hooks, clock, lazy generator run once iff the serving logger enables the level, also after the tag was rebound."),
  "C11": ("partial evaluation of the entry points with runtime.Caller/Callers/CallersFrames modelled over the interpreter's call stack (site sequence A,B,A,B, skip values around the constants)", "Additionally decided over those classes: default and fast look-up report the caller's site and agree; nothing is recorded when disabled."),
  "C12": ("partial evaluation of every non-queueing logger's Write over reference sets, of the queueing logger's Write under scripted schedules (buffer reused by the caller, write during a fan-out) and of handle sequences", "Additionally decided over those domains: ungated, exactly-once, verbatim delivery; handle stability and forwarding."),
- "C13": ("partial evaluation of the rolling appender over 30 scripted steps (boundaries, idle intervals, failed rotations, restart)", "Additionally decided for a single writer over the scripted steps: file name of the write's own interval, flags, rotate-before-write, the created file is published."),
+ "C13": ("partial evaluation of the rolling appender over 43 scripted steps (boundaries, idle intervals, failed rotations, rejected writes, restart)", "Additionally decided for a single writer over the scripted steps: file name of the write's own interval, flags, rotate-before-write, the created file is published."),
  "C14": ("partial evaluation of the cleanup closure a rotation launches, captured with its bindings, over 54 scripted directory populations, and of the rolling-file logger's start-up over a directory holding old own files", "Additionally decided over those populations: the removed set equals the statement's (own 14-digit files older than the cut-off by modification time, nothing else)."),
  "C15": ("partial evaluation of toStorage+NewPlugin on every registered and seven synthetic plugin types (package reflect modelled over go/types) against a reference resolver, 1273 configurations, and of Refresh on 233 configurations; key normaliser on every short string", "Additionally decided over the generated configurations: value > default > error, ${} substitution, camel/kebab/snake/inline equivalence, element shapes, errors instead of panics, every logger x appender type instantiable."),
  "C16": ("partial evaluation of Refresh/Destroy/RegisterTag/GetLogger/log/write sequences (all of length <= 3 over ten operations, plus long scripted ones)", "Additionally decided over those sequences: no panic in any state, built-in logger when unbound, second Refresh rejected without effect, Destroy idempotent, registration refused exactly while live."),
